@@ -55,6 +55,43 @@ Lemma call_example :
     /\ read σ' (NLocal 0) = Some (VInt 5 false) /\ length (heap σ') = 5%nat.
 Proof. vm_compute. eexists. repeat split; reflexivity. Qed.
 
+(* switch (var.v0) { case "5": set var.v1 = 1; fallthrough;  default: set var.v1 += 2; break; }
+   the control is "5": the first case matches and falls through into the default: var.v1 = 3, var.v0 = 5 *)
+Definition sw_example : stmt :=
+  SSwitch (EVar (NLocal 0))
+    [ (CStr [Byte.x35], [SSet (NLocal 1) AEq (ELit (VInt 1 true)); SNop], true);
+      (CDefault, [SSet (NLocal 1) AAdd (ELit (VInt 2 true)); SNop], false) ] (Some 1%nat).
+Lemma switch_example :
+  exists σ', exec repaired std_ops [] 20 false sw_example σ_ab = OK (ONorm, σ')
+    /\ read σ' (NLocal 1) = Some (VInt 3 false) /\ read σ' (NLocal 0) = Some (VInt 5 false).
+Proof. vm_compute. eexists. repeat split; reflexivity. Qed.
+
+(* sub f1 { set var.v20 ... ; return(lookup); }   call f1; set var.v1 = 9;
+   the state travels through the call: the statement after the call does not run *)
+Definition sub_f1 : sub := {| s_params := []; s_ret := None; s_body := [SReturnState 7; SSet (NLocal 1) AEq (ELit (VInt 8 true))] |}.
+Lemma return_state_example :
+  exists σ', run_main repaired std_ops [(1%N, sub_f1)] 20 [SCall 1 []; SSet (NLocal 1) AEq (ELit (VInt 9 true))] σ_ab
+             = OK (OState 7, σ')
+    /\ read σ' (NLocal 1) = Some (VInt 0 false) /\ locals σ' = locals σ_ab.
+Proof. vm_compute. eexists. repeat split; reflexivity. Qed.
+
+(* set req.http.h0:k1 = "x";  set req.http.h0:k2 = "y";  then h0 reads "k1=x,k2=y", h1 is untouched *)
+Definition field_example_stmt : Prop :=
+  match exec repaired std_ops [] 20 false (SSet (NField 0 0 1) AEq (ELit (VStr [Byte.x78] false true))) σ_ab with
+  | OK (ONorm, σ1) =>
+    match exec repaired std_ops [] 20 false (SSet (NField 0 0 2) AEq (ELit (VStr [Byte.x79] false true))) σ1 with
+    | OK (ONorm, σ2) =>
+        read σ2 (NHeader 0 0) = Some (VStr [Byte.x6b; Byte.x31; Byte.x3d; Byte.x78; Byte.x2c; Byte.x6b; Byte.x32; Byte.x3d; Byte.x79] false false) /\
+        read σ2 (NField 0 0 1) = Some (VStr [Byte.x78] false false) /\
+        read σ2 (NField 0 0 2) = Some (VStr [Byte.x79] false false) /\
+        read σ2 (NHeader 0 1) = Some (VStr [] true false)
+    | _ => False
+    end
+  | _ => False
+  end.
+Lemma field_example : field_example_stmt.
+Proof. vm_compute. repeat split; reflexivity. Qed.
+
 (* BEFORE the repair of unary minus: evaluating -var.v0 changes var.v0 *)
 Lemma neg_in_place_refutes :
   exists n m e σ l σ',
